@@ -22,6 +22,8 @@ CLAIMED = {
          "IQR operations are ASSUMED contracts over an abstract interval view; stream positions below 2^60; batches arrive in stream order (adjacency precondition)"),
  "C16": ("4 C16", "Event-time normalisation: a numeric timestamp in seconds / milliseconds / nanoseconds is stored as its millisecond (logs) or second (Prometheus remote write) instant for all 2^64 values, and the JSON number path of ExtractTimeStamp agrees with the string path (ghost-linked contracts). Attribute/field preservation through the protocol decoders is not decided.",
          "the magnitude band [1e14,1e18) is treated as milliseconds by both paths (no microsecond case exists); jsonparser/strconv are external (results arbitrary); RFC3339 parsing not covered"),
+ "C18": ("4 C18", "Decoders of the files that carry no checksum must not panic on arbitrary bytes: the block-summary readers (.bsu, .mbsu) and the timestamp-column decoder are proved free of index/slice/nil panics for every file content and length (unbounded loops with inductive invariants), and the timestamp decoder is proved to return lowTs + the stored offset for every record. Checksummed column blocks, zstd and whole-query behaviour are not decided.",
+         "file I/O results are arbitrary (os.File.Read/ReadAt, FileInfo.Size assumed 0 <= n <= len); dictionary rank values of the column-name map assumed small (explicit site assumption); decoders that only see CRC-verified blocks are checked under their well-formedness precondition in C01, not here"),
  "C20": ("4 C20", "Alert state machine kernels: threshold conditions equal the configured comparison, Firing requires the current and the N-1 previous evaluations Pending/Firing (loop invariant over the history rows), the new state is Normal iff the condition did not hold and a notification is attempted exactly on Firing/Normal, the notification gate follows its decision table, no division by a zero interval. The keyed-store half of the property is not decided.",
          "history store (sqlite/gorm) ASSUMED to return non-nil rows; time.Now-based cool-down observers assumed pure; saved objects/dashboards/aliases CRUD not covered"),
 }
